@@ -90,7 +90,220 @@ def run(tier, replay=None):
     F = facts.extract(UNITS)
     chk.count('functions parsed', len(F.functions))
     run_ranges(chk, F)
+    run_refusal(chk, F)
+    run_isprime(chk, F, tier)
     chk.assumptions += ['clang 14 parser/Sema and its implicit-conversion nodes', 'operands of the arithmetic helpers '
                         'are reduced (the property quantifies over reduced operands)', 'helper contracts of '
                         'tables/c10.json are each verified on the helper itself']
     return chk
+
+
+# ------------------------------------------------------------------ refusal of non-primes (structural)
+
+def _cmp_guard_rejects_small(cond, name):
+    """cond is a comparison between `name` and a literal that is true for 0 and 1 and false for 2 (so that the
+    false arm implies name >= 2). Decided by evaluating the comparison on these three values."""
+    c = ir.skipcasts(cond)
+    if c is None or c.get('k') not in ('BinaryOperator', 'CXXOperatorCallExpr'):
+        return False
+    ch = c.get('c') or []
+    if c['k'] == 'CXXOperatorCallExpr':
+        ch = ch[1:]
+    if len(ch) != 2 or c.get('op') not in ('<', '<=', '>', '>=', '==', '!='):
+        return False
+    a, b = ir.skipcasts(ch[0]), ir.skipcasts(ch[1])
+
+    def val(n, x):
+        if n is None:
+            return None
+        if n.get('k') == 'IntegerLiteral':
+            return int(n['v'])
+        if ir.show(n) == name:
+            return x
+        return None
+    import operator
+    ops = {'<': operator.lt, '<=': operator.le, '>': operator.gt, '>=': operator.ge, '==': operator.eq,
+           '!=': operator.ne}
+    res = []
+    for x in (0, 1, 2):
+        va, vb = val(a, x), val(b, x)
+        if va is None or vb is None:
+            return False
+        res.append(ops[c['op']](va, vb))
+    return res == [True, True, False]
+
+
+def _has_throw(n):
+    return ir.contains(n, lambda y: y.get('k') == 'CXXThrowExpr')
+
+
+def run_refusal(chk, F):
+    n = 0
+    for cname, fname, var in TABLE['runtime_characteristic_setters']:
+        fs = [f for f in F.functions if f.get('clsname') == cname and f['name'] == fname and f['inst'] in (0, 2)]
+        if not fs:
+            fs = [f for f in F.functions if f.get('clsname') == cname and f['name'] == fname]
+        if not fs:
+            raise AnalysisBroken('C10: %s::%s not found' % (cname, fname))
+        f = fs[0]
+        where = '%s:%d' % (rel(f['file']), f['line'])
+        n += 1
+        small = [x for x in ir.walk(f['body']) if x.get('k') == 'IfStmt' and _has_throw(x.get('then')) and
+                 _cmp_guard_rejects_small(x.get('cond'), var)]
+        chk.ob('E2-refusal', '%s::%s refuses characteristics 0 and 1' % (cname, fname), where, bool(small),
+               '' if small else 'no guard `if (%s <= 1) throw` (true for 0 and 1, false for 2) is left' % var,
+               key='E2ref|%s::%s|small' % (cname, fname))
+        # inside the inverse loop: `if (mult == characteristic) throw`  (a composite modulus has a zero divisor)
+        comp = []
+        for loop in ir.walk(f['body']):
+            if loop.get('k') not in ('WhileStmt', 'DoStmt'):
+                continue
+            for x in ir.walk(loop.get('body')):
+                if x.get('k') == 'IfStmt' and _has_throw(x.get('then')):
+                    c = ir.skipcasts(x.get('cond'))
+                    if c is not None and c.get('op') == '==' and var in (ir.show(c['c'][0]), ir.show(c['c'][-1])):
+                        comp.append(x)
+        chk.ob('E2-refusal', '%s::%s refuses composite characteristics' % (cname, fname), where, bool(comp),
+               '' if comp else 'the inverse-table loop no longer throws when a multiple of an element equals the '
+               'characteristic (the only place a composite modulus is detected)',
+               key='E2ref|%s::%s|composite' % (cname, fname))
+        # the table is filled for every residue 1..p-1
+        loops = [x for x in ir.walk(f['body']) if x.get('k') == 'ForStmt' and
+                 ir.contains(x.get('body'), lambda y: y.get('k') in ('WhileStmt', 'DoStmt'))]
+        ok = False
+        for lp in loops:
+            init = ir.show(lp.get('init'))
+            cond = ir.skipcasts(lp.get('cond'))
+            if cond is not None and cond.get('op') == '<' and ir.show(cond['c'][1]) == var and init.endswith('= 1'):
+                ok = True
+        chk.ob('E2-refusal', '%s::%s visits every residue 1..p-1' % (cname, fname), where, ok,
+               '' if ok else 'the loop over the residues is not `for (i = 1; i < %s; ...)`' % var,
+               key='E2ref|%s::%s|allresidues' % (cname, fname))
+    chk.expect_count('E2-refusal', 'run-time characteristic setters', n, 3)
+
+    # compile-time classes: every constructor static_asserts primality
+    m = 0
+    for f in F.functions:
+        if f.get('clsname') == 'Zp_field_element' and f['inst'] == 0 and f['kind'] in ('default_ctor', 'ctor'):
+            m += 1
+            sa = [x for x in ir.walk(f['body']) if x.get('k') == 'StaticAssert' and
+                  ir.contains(x.get('cond'), lambda y: ir.is_call(y) and ir.call_name(y) == '_is_prime')]
+            chk.ob('E2-refusal', 'Zp_field_element constructor (line %d) static_asserts _is_prime()' % f['line'],
+                   '%s:%d' % (rel(f['file']), f['line']), bool(sa),
+                   '' if sa else 'a constructor of the compile-time field no longer checks primality',
+                   key='E2ref|Zp_field_element::ctor%d|static_assert' % len(f['params']))
+    chk.expect_count('E2-refusal', 'Zp_field_element constructors', m, 2)
+
+
+def skeleton(n, modname):
+    t = ir.show(n)
+    import re
+    return re.sub(r'\b%s\b' % re.escape(modname), 'P', t)
+
+
+def stmt_skeleton(n, modname, out):
+    """flat rendering of a statement tree: control structure + expressions with the modulus renamed"""
+    if n is None:
+        return
+    k = n.get('k')
+    if k == 'CompoundStmt':
+        for c in n.get('c') or []:
+            stmt_skeleton(c, modname, out)
+    elif k == 'IfStmt':
+        out.append('if ' + skeleton(n.get('cond'), modname))
+        stmt_skeleton(n.get('then'), modname, out)
+        if n.get('else') is not None:
+            out.append('else')
+            stmt_skeleton(n.get('else'), modname, out)
+        out.append('fi')
+    elif k == 'ForStmt':
+        out.append('for %s ; %s ; %s' % (skeleton(n.get('init'), modname), skeleton(n.get('cond'), modname),
+                                         skeleton(n.get('inc'), modname)))
+        stmt_skeleton(n.get('body'), modname, out)
+        out.append('rof')
+    elif k == 'WhileStmt':
+        out.append('while ' + skeleton(n.get('cond'), modname))
+        stmt_skeleton(n.get('body'), modname, out)
+        out.append('elihw')
+    elif k == 'ReturnStmt':
+        out.append('return ' + skeleton(n.get('value'), modname))
+    else:
+        out.append(skeleton(n, modname))
+
+
+def run_isprime(chk, F, tier):
+    """(a) compile-fail witnesses decide Zp_field_element::_is_prime; (b) every sibling copy has the same skeleton"""
+    import subprocess
+    import tempfile
+    lim = 65535 if tier == 'thorough' else 2100
+    ns = list(range(0, lim + 1))
+    if tier != 'thorough':
+        ns += list(range(65400, 65536))
+
+    def is_prime(n):
+        if n < 2:
+            return False
+        i = 2
+        while i * i <= n:
+            if n % i == 0:
+                return False
+            i += 1
+        return True
+    chunks = [ns[i::16] for i in range(16)]
+    failed = set()
+    with tempfile.TemporaryDirectory(prefix='gsa-wit-') as td:
+        procs = []
+        for ci, ch in enumerate(chunks):
+            src = os.path.join(td, 'w%d.cpp' % ci)
+            with open(src, 'w') as fh:
+                fh.write('#include <gudhi/Fields/Zp_field.h>\n'
+                         'template <unsigned int N> void gsa_w() { Gudhi::persistence_fields::Zp_field_element<N> x; '
+                         '(void)x; }\n')
+                for n in ch:
+                    fh.write('template void gsa_w<%dU>();\n' % n)
+            cmd = ['clang++', '-fsyntax-only', '-ferror-limit=0', '-ftemplate-backtrace-limit=0'] + \
+                facts.base_flags() + [src]
+            procs.append(subprocess.Popen(cmd, stdout=subprocess.PIPE, stderr=subprocess.STDOUT, text=True))
+        import re
+        for pr in procs:
+            out, _ = pr.communicate()
+            # each failing static_assert is followed by a note naming gsa_w<N>
+            cur_err = False
+            for line in out.splitlines():
+                if 'error:' in line:
+                    cur_err = 'static_assert' in line or 'static assertion' in line
+                    if not cur_err:
+                        raise AnalysisBroken('C10 witness unit: unexpected error: ' + line[:300])
+                mm = re.search(r"Zp_field_element<(\d+),", line)
+                if mm and cur_err and 'requested here' in line:
+                    failed.add(int(mm.group(1)))
+    wrong = [n for n in ns if is_prime(n) == (n in failed)]
+    chk.count('compile-fail witnesses (Zp_field_element<N> instantiations)', len(ns))
+    chk.ob('E8-isprime-witness', 'Zp_field_element<N> compiles exactly for prime N (N in %d witnesses up to %d)'
+           % (len(ns), max(ns)), 'src/Persistence_matrix/include/gudhi/Fields/Zp_field.h', not wrong,
+           '' if not wrong else 'the compile-time primality check decides wrongly for N = %s' % wrong[:10],
+           key='E8|Zp_field_element::_is_prime|witness')
+    if not failed:
+        raise AnalysisBroken('C10 witness unit: no static_assert failure observed at all (positive example missing)')
+
+    ref = None
+    sk = {}
+    for f in F.functions:
+        if f['name'] == '_is_prime' and f['inst'] in (0, 2) and f.get('body') is not None:
+            mod = f['params'][0]['n'] if f['params'] else 'characteristic'
+            out = []
+            stmt_skeleton(f['body'], mod, out)
+            sk[(f.get('clsname'), rel(f['file']), f['line'])] = out
+            if f.get('clsname') == 'Zp_field_element':
+                ref = out
+    if ref is None:
+        raise AnalysisBroken('C10: Zp_field_element::_is_prime not found')
+    chk.expect_count('E7-isprime-siblings', 'copies of _is_prime', len(sk), 6)
+    for (cn, fl, ln), out in sorted(sk.items()):
+        if out is ref:
+            continue
+        diff = [(a, b) for a, b in zip(out, ref) if a != b] or ([('len %d' % len(out), 'len %d' % len(ref))]
+                                                                 if len(out) != len(ref) else [])
+        chk.ob('E7-isprime-siblings', '%s::_is_prime agrees with the witnessed copy' % cn, '%s:%d' % (fl, ln),
+               not diff, '' if not diff else 'differs from Zp_field_element::_is_prime: %s vs %s' % diff[0],
+               key='E7|%s::_is_prime' % cn)
